@@ -31,6 +31,9 @@ MODELS = {
     "shared_twice": dict(doms=1, vars=[(0, 0), (0, "o0")], props=[([0, 1], "affine_leq", [2, -1, 0])], D=3),
     "shared_twice_geq": dict(doms=1, vars=[(0, 0), (0, "o0")], props=[([0, 1], "affine_geq", [2, -1, 0])], D=3),
     "shared_twice_eq": dict(doms=2, vars=[(0, 0), (0, "o0"), (1, 0)], props=[([0, 1, 2], "affine_eq", [1, 1, -1, 0])]),
+    # the same with the two occurrences listed in the other order (the occurrence whose bound the other one reads comes LAST)
+    "shared_twice_rev": dict(doms=1, vars=[(0, 0), (0, "o0")], props=[([1, 0], "affine_leq", [-1, 2, 0])], D=3),
+    "shared_twice_eq_rev": dict(doms=1, vars=[(0, 0), (0, "o0")], props=[([1, 0], "affine_eq", [-2, -1, S])], D=3),
     "same_var_twice": dict(doms=2, vars=[(0, 0), (1, 0)], props=[([0, 0, 1], "affine_eq", [1, 1, -1, 0])]),
     "magic_like": dict(doms=2, vars=[(0, 0), (1, 0)], props=[([0, 1, 0], "count_eq", [0]), ([0, 1, 1], "count_eq", [1])], base=0),
     "count": dict(doms=3, vars=[(0, 0), (1, 0), (2, 0)], props=[([0, 1, 2], "count_eq", [S])]),
@@ -45,6 +48,10 @@ MODELS = {
     "circuit3": dict(doms=3, vars=[(0, 0), (1, 0), (2, 0)], props=[([0, 1, 2], "alldifferent", []), ([0, 1, 2], "no_sub_cycle", [])], base=0, D=2),
     "circuit3_twice": dict(doms=3, vars=[(0, 0), (1, 0), (2, 0)], props=[([0, 1, 2], "alldifferent", []), ([0, 1, 2], "no_sub_cycle", []), ([0, 1, 2], "no_sub_cycle", [])], base=0, D=2),
     "circuit3_scc": dict(doms=3, vars=[(0, 0), (1, 0), (2, 0)], props=[([0, 1, 2], "alldifferent", []), ([0, 1, 2], "scc", [])], base=0, D=2),
+    # a constraint using ONE variable twice (t[s2] = s2, index and value are the same successor) next to a constraint woken by
+    # instantiation only: a call may raise the lower bound of one occurrence and lower the upper bound of the other, the variable
+    # becomes instantiated although neither occurrence is
+    "circuit3_alias": dict(doms=5, vars=[(0, 0), (1, 0), (2, 0), (3, 0), (4, 0)], props=[([0, 1, 2], "alldifferent", []), ([0, 1, 2], "no_sub_cycle", []), ([3, 4, 2, 2], "element_liv", [])], base=0, D=2, thorough_only=True),
     # one call moves BOTH bounds of x (table look-up) while a cheaper constraint, already run, watches only one of them
     # (configuration selection: x_k = T_k[z], x1 + x2 + x3 <= c; fixing z moves both bounds of every x_k, nothing else wakes the sum)
     "config3": dict(doms=4, vars=[(0, 0), (1, 0), (2, 0), (3, 0)], props=[([1, 2, 3], "affine_leq", [1, 1, 1, S]), ([0, 1], "element_iv", [1, 0, 2]), ([0, 2], "element_iv", [1, 2, 0]), ([0, 3], "element_iv", [1, 0, 2])], base=0),
